@@ -198,11 +198,19 @@ def run(run):
         run.check("R2", "specialize_conditional|condition", ok, "the condition of a conditional jump must be read-flagged", F.loc(fn["body"]))
         # the setter itself: every input var, every referenced id
         fn = F.fn("set_read_flag_for_input_ids_of_expression", adt="State", mod="analysis::function_signature::state")
-        t = S.Sym(F).term(fn["body"])
-        ok = any(is_call(x, "input_vars") for x in S.subterms(t)) and any(is_call(x, "referenced_ids") for x in S.subterms(t)) and any(is_call(x, "set_read_flag") for x in S.subterms(t))
-        filt = [x[1] for x in S.subterms(t) if is_call(x, ("filter", "take", "skip", "first", "next", "last", "find", "take_while", "skip_while", "step_by"))]
-        exits = [x for x in T.walk(fn["body"]) if x.get("k") in ("Break", "Continue", "Return") and x.get("ds") != "ForLoop"]
-        run.check("R2", "set_read_flag_for_input_ids_of_expression|all-inputs-all-ids", ok and not filt and not exits, "the setter must flag every tracked id referenced by every input register of the expression", F.loc(fn["body"]))
+        deep = list(T.walk_deep(F, fn["body"], depth=3))
+        named = lambda nm: any((T.is_call(x, nm)) or (x.get("k") == "FnRef" and (x.get("f") or "").endswith("::" + nm)) for x in deep)
+        ok = named("input_vars") and named("referenced_ids") and named("set_read_flag")
+        filt = [x["n"] for x in deep if T.is_call(x, ("filter", "take", "skip", "first", "last", "find", "take_while", "skip_while", "step_by", "nth"))]
+        exits = [x for x in T.walk(fn["body"]) if x.get("k") in ("Break", "Return") and x.get("ds") != "ForLoop"]
+        key = "set_read_flag_for_input_ids_of_expression|all-inputs-all-ids"
+        if ok and not filt and not exits:
+            run.holds("R2", key, "", F.loc(fn["body"]))
+        elif not ok:
+            missing = [nm for nm in ("input_vars", "referenced_ids", "set_read_flag") if not named(nm)]
+            run.violated("R2", key, "the setter must flag every tracked id referenced by every input register of the expression; nowhere in the setter or the functions it calls: %s" % missing, F.loc(fn["body"]))
+        else:
+            run.undecided("R2", key, "the iteration is filtered / left early (%s): whether every input and every id is still visited is not decided" % (filt or "early exit"), F.loc(fn["body"]))
 
     run.guarded("R2", r2)
 
